@@ -52,11 +52,16 @@ theorem prep_mp : ∀ {a b : GoVal}, MP a b → MP (prep a) (prep b)
   | _, _, .refl v => .refl _
   | _, _, .slice t hl => by simp only [prep]; exact .slice t (prepList_mp hl)
   | _, _, .array t hl => by simp only [prep]; exact .array t (prepList_mp hl)
-  | _, _, @MP.map kt vt kvs mid kvs' hv hk hn hm hp => by
+  | _, _, @MP.map kt vt kvs mid kvs' hv hk hn hm hp ht => by
     simp only [prep]
-    refine MP.map kt vt hv ?_ (noPriv_prepKVs hn) (prepKVs_mpv hm) ?_
+    refine MP.map kt vt hv ?_ (noPriv_prepKVs hn) (prepKVs_mpv hm) ?_ ?_
     · exact keysOK_of_keys_eq (prepKVs_keys_good hk.1).symm hk
     · rw [prepKVs_eq_map, prepKVs_eq_map]; exact hp.map _
+    · intro kv hkv
+      rw [prepKVs_eq_map] at hkv
+      obtain ⟨kv', hkv', rfl⟩ := List.mem_map.mp hkv
+      simp only [prep_goodKey (hk.1 kv' hkv')]
+      exact ht kv' hkv'
   | _, _, .mapVals kt vt hv hn hm => by
     simp only [prep]
     exact .mapVals kt vt hv (noPriv_prepKVs hn) (prepKVs_mpv hm)
